@@ -74,6 +74,14 @@ class ValidationScenario(StateScenario):
                 if isinstance(v, Config):
                     ok = self.audit(st, v, schema.sub_schema_node(st.sd, f), p, out, validators) and ok
                 continue
+            if k == "list" and f.get("item") and schema.is_cfg_node(f["item"]) and isinstance(v, list):
+                # whether validate() descends into configurations held in a list is not stated: when one of them has an
+                # unmet requirement the verdict of the whole call is left open
+                inode = schema.sub_schema_node(st.sd, f["item"])
+                for i, item in enumerate(list.__iter__(v)):
+                    sub = []
+                    if isinstance(item, Config) and (not self.audit(st, item, inode, "%s[%d]" % (p, i), sub, []) or sub):
+                        ok = False
             o = f.get("o", {})
             if o.get("required"):
                 if v is None:
